@@ -253,6 +253,14 @@ func runC09(rng *rand.Rand, scale int, out string, shards int, seed int64, corpu
 		do(g)
 		graphs = append(graphs, g)
 	}
+	// 5c. the space characters on which the regexp classes \s/\S and
+	// strings.TrimSpace / Fields disagree, in every single-token position
+	for _, in := range unicodeSpaceCases(rng, 420*scale) {
+		if hung {
+			break
+		}
+		do(in)
+	}
 	// 5b. cast multiplicities (bounded above), written out and through parameters
 	mults := []string{"-9223372036854775808", "-2147483649", "-4", "-1", "0", "1", "2", "7", "40", "+2", "007", "-0", "1.5", "two", "", "~undefinedn~", "0x10", "1e2", "99999999999999999999", "-"}
 	for i := 0; i < 140*scale; i++ {
@@ -329,9 +337,7 @@ func runC09(rng *rand.Rand, scale int, out string, shards int, seed int64, corpu
 					o.Cls = 20
 				}
 			}
-			if o.Cls == 4 {
-				o.Names = undefinedNames(r.Err.ErrShort)
-			}
+			o.Names = undefinedNames(r.Err.ErrShort)
 			rr.Err = o
 		}
 		if r.End == "panic" {
@@ -384,21 +390,58 @@ func runC09(rng *rand.Rand, scale int, out string, shards int, seed int64, corpu
 		}
 		e, p := rs.E, rs.P
 		rec := editRec{Cmd: c, Line: line, Err: e, Pan: p}
-		switch {
+		switch { // wording-free: no error / some error / crash
 		case p != "":
 			rec.Obs = 2
-		case e == "invalid syntax":
+		case e != "":
 			rec.Obs = 1
-		case e == "unknown syntax":
-			rec.Obs = 3
 		}
 		sum.Outcomes[fmt.Sprintf("edit-%d", rec.Obs)]++
 		edits = append(edits, rec)
 	}
 
+	// 8. scene shorthands: `scene TOKEN mood starts red` for every single byte
+	// and for the runes on which the regexp class \S and strings.TrimSpace
+	// disagree (exhaustive; the same in both tiers)
+	var shorts []editRec
+	var toks []string
+	for b := 0; b < 256; b++ {
+		toks = append(toks, string([]byte{byte(b)}))
+	}
+	for _, r := range unicodeSpaces {
+		toks = append(toks, string(r))
+	}
+	toks = append(toks, "\u00e9", "\u0416", "\u4e2d", "\U0001F600", "\u0661", "\u00b2")
+	for _, tok := range toks {
+		if hung || scale == 0 {
+			break
+		}
+		line := "scene " + tok + " mood starts red"
+		rs, st := call(&request{Kind: "edit", Line: line})
+		rec := editRec{Cmd: tok, Line: line}
+		switch {
+		case st.Timeout:
+			rec.Obs, rec.Pan = 2, "did not terminate"
+		case st.Fatal != "":
+			rec.Obs, rec.Pan = 2, "fatal: "+st.Fatal
+		case !st.OK:
+			continue
+		default:
+			rec.Err, rec.Pan = rs.E, rs.P
+			switch {
+			case rs.P != "":
+				rec.Obs = 2
+			case rs.E != "":
+				rec.Obs = 1
+			}
+		}
+		sum.Outcomes[fmt.Sprintf("shorthand-%d", rec.Obs)]++
+		shorts = append(shorts, rec)
+	}
+
 	// ---- emit
-	sum.Counts["parse"], sum.Counts["read"], sum.Counts["edit"] = len(parse), len(reads), len(edits)
-	sum.Evaluations = len(parse) + len(reads) + len(edits)
+	sum.Counts["parse"], sum.Counts["read"], sum.Counts["edit"], sum.Counts["shorthand"] = len(parse), len(reads), len(edits), len(shorts)
+	sum.Evaluations = len(parse) + len(reads) + len(edits) + len(shorts)
 	sum.DistinctNontrivial = distinct(parse)
 	sum.Shards = shards
 	for k := 0; k < shards; k++ {
@@ -424,12 +467,19 @@ func runC09(rng *rand.Rand, scale int, out string, shards int, seed int64, corpu
 			items = append(items, fmt.Sprintf("(%s, %d%%N)", bstr(r.Line), r.Obs))
 		}
 		sb.WriteString("Definition edit_cases : list (list byte * N) := " + vh.ListNL(items) + ".\n")
+		lo, hi = shardRange(len(shorts), shards, k)
+		sum.Offsets["shorthand"] = append(sum.Offsets["shorthand"], lo)
+		items = nil
+		for _, r := range shorts[lo:hi] {
+			items = append(items, fmt.Sprintf("(%s, %d%%N)", bstr(r.Cmd), r.Obs))
+		}
+		sb.WriteString("Definition shorthand_cases : list (list byte * N) := " + vh.ListNL(items) + ".\n")
 		vh.WriteFile(out, fmt.Sprintf("cases_%d.v", k), sb.String())
 	}
 	for i := 0; i < len(parse) && len(sum.Samples) < 14; i += 1 + len(parse)/14 {
 		sum.Samples = append(sum.Samples, sample(parse[i].In, parse[i].Obs))
 	}
-	vh.WriteJSON(out, "cases.json", map[string]interface{}{"parse": parse, "read": reads, "edit": edits, "seed": seed})
+	vh.WriteJSON(out, "cases.json", map[string]interface{}{"parse": parse, "read": reads, "edit": edits, "shorthand": shorts, "seed": seed})
 	vh.WriteJSON(out, "summary.json", sum)
 	_ = os.Stdout
 }
